@@ -22,7 +22,13 @@ PROPS["C11"] = dict(
                  "a message whose Serialize fails is dropped and logged by the sender; nothing else reports an unsendable route",
                  "several identical End-of-RIB markers of one family in one list may be merged into one"],
     must_count=["messages_sent", "messages_within_64_of_limit", "messages_with_shared_attributes", "cases_with_repeated_key",
-                "cases_with_2plus_messages", "eor_out", "cases_extended_message", "family_cases_addpath_on", "family_cases_addpath_off"],
+                "cases_with_2plus_messages", "eor_out", "cases_extended_message", "family_cases_addpath_on", "family_cases_addpath_off",
+                # unit "e2e" (through the real sendMessageloop behind a slow reader)
+                "e2e:c11:scenarios", "e2e:c11:nontrivial_scenarios", "e2e:c11:route_changes", "e2e:c11:messages_checked", "e2e:c11:updates_after_resume", "e2e:c11:messages_with_shared_attributes",
+                "e2e:c11:messages_with_50plus_prefixes", "e2e:c11:messages_within_64_of_limit", "e2e:c11:routes_compared_with_last_action", "e2e:c11:routes_compared_with_adj_out",
+                "e2e:c11:oversize_routes_skipped", "e2e:c11:eor_received", "e2e:c11:ev:announce:tiny", "e2e:c11:ev:announce:medium", "e2e:c11:ev:announce:large", "e2e:c11:ev:announce:near-limit",
+                "e2e:c11:ev:announce:oversize", "e2e:c11:ev:withdraw", "e2e:c11:ev:group-announce", "e2e:c11:ev:group-withdraw", "e2e:c11:ev:late-target-paused-from-start"]
+               + ["e2e:c11:session:addpath=%s,ext=%s,gr=%s,late=%s" % (a, b, c, d) for a in ("false", "true") for b in ("false", "true") for c in ("false", "true") for d in ("false", "true")],
     units=[dict(name="table", harness="t_table", files=["common_", "c11_"], run="TestVerifC11",
                 shards=dict(quick=16, thorough=16), timeout_s=dict(quick=900, thorough=7200)),
            dict(name="e2e", harness="t_server", files=["sim_", "e2e_"], run="TestVerifE2E_C11",
